@@ -819,3 +819,10 @@ package types
 //@ spec func evHashOf(e Evidence) common.Hash
 //@ trusted func (e Evidence) Hash() (r common.Hash)
 //@   ensures r == evHashOf(e)
+
+// ---------------------------------------------------------------- C13/C18: votes on the wire
+//@ trusted func (vote *Vote) ValidateBasic() (err error)
+//@ func VoteFromProto(pv *kproto.Vote) (r *Vote, err error)
+//@   for C13 C18
+//@   ensures pv == nil ==> err != nil
+//@   ensures [fieldsCopied] err == nil ==> r != nil && fresh(r) && r.Type == pv.Type && r.Height == pv.Height && r.Round == pv.Round && r.Timestamp == pv.Timestamp && r.ValidatorIndex == pv.ValidatorIndex && r.Signature == pv.Signature && (len(pv.ValidatorAddress) == 20 ==> content(r.ValidatorAddress) == content(pv.ValidatorAddress))
